@@ -284,6 +284,23 @@ func findLoops(fn *ssa.Function) ([]*loopInfo, map[*ssa.BasicBlock][]*loopInfo, 
 	return loops, loopOf, headers
 }
 
+// rootAlloc: the Alloc an address is derived from by field / index selection.
+func rootAlloc(v ssa.Value) *ssa.Alloc {
+	for i := 0; i < 8; i++ {
+		switch x := v.(type) {
+		case *ssa.Alloc:
+			return x
+		case *ssa.IndexAddr:
+			v = x.X
+		case *ssa.FieldAddr:
+			v = x.X
+		default:
+			return nil
+		}
+	}
+	return nil
+}
+
 func isCellAlloc(a *ssa.Alloc) bool {
 	refs := a.Referrers()
 	if refs == nil {
@@ -336,6 +353,8 @@ func (u *Unit) newFrame(fn *ssa.Function, parent *Frame) *Frame {
 							seen[a] = true
 							li.cells = append(li.cells, a)
 						}
+					} else if ra := rootAlloc(in.Addr); ra != nil && li.blocks[ra.Block()] {
+						// store into an object allocated inside the loop body (e.g. a varargs array)
 					} else {
 						li.impure = true
 					}
@@ -395,6 +414,15 @@ func (u *Unit) isPureCall(c *ssa.CallCommon) bool {
 
 func (p *Program) isPure(key string) bool {
 	for _, re := range p.specs.PureFns {
+		if re.MatchString(key) {
+			return true
+		}
+	}
+	return p.isFunction(key)
+}
+
+func (p *Program) isFunction(key string) bool {
+	for _, re := range p.specs.FuncFns {
 		if re.MatchString(key) {
 			return true
 		}
